@@ -139,7 +139,7 @@ def check_C09(run, replay=None):
     run.oblige("harness-build bridge_twin (dev, --cfg crux_verif) from the repository's working tree", ok, log[-1500:])
     seed = run.seed
     rp = json.load(open(replay)) if replay else None
-    if rp and rp.get("rerun"):
+    if rp and rp.get("rerun") and "histories" in rp["rerun"]:
         seed, histories, max_steps = rp["rerun"]["seed"], rp["rerun"]["histories"], rp["rerun"]["max_steps"]
     if ok:
         rc, out = C.sh("%s %d %d %d" % (bins["bridge_twin"], seed, histories, max_steps), timeout=1200)
@@ -207,6 +207,9 @@ def check_C09(run, replay=None):
                                          "cases": [dict(shrink_case(c, s), differs=DIFF_FIELD.get(k, k), at_call=s) for c, s, k in bad_model[:8]]}, no_input=True)
     if not replay or (rp and rp.get("kind") == "atomicity"):
         atomicity_stage(run, "C09", 2 if tier == "quick" else 12)
+    if ok and (not replay or (rp and rp.get("rerun", {}).get("long_session"))):
+        ls = (rp or {}).get("rerun", {}).get("long_session") or {"seed": run.seed, "hist": 2 if tier == "quick" else 8, "steps": 2400 if tier == "quick" else 2600}
+        long_session_stage(run, "C09", bins, ls["seed"], ls["hist"], ls["steps"])
     run.cov["rule"] = ("histories of 4..%d calls over two apps (Command API + #[effect]; legacy capabilities + derive(Effect)) x two codecs "
                        "(bincode Bridge, serde_json BridgeWithSerializer), each run in lockstep with a typed Core: events with 0..9 effects "
                        "(render, notifications, one-shot u64/String requests with follow-up chains, streams), responses to outstanding requests in "
@@ -408,6 +411,47 @@ def release_timer_file(cases):
         return "(1, %s)" % lst(["(%s, %s, %s)" % (act(s["act"]), zlit(s["cleared"]), zlit(s["waiting"])) for s in c["steps"]])
     return RELEASE_HEADER + "Definition cs : list (N * list (taction * Z * Z)) := [\n" + ";\n".join(one(c) for c in cases) + \
         "].\nEval vm_compute in (timer_diags cs).\n"
+
+def long_reg_file(cases):
+    return release_reg_file(cases).replace("Eval vm_compute in (reg_diags cs).", "Eval vm_compute in (long_diags cs).")
+
+def long_session_stage(run, prop, bins, seed, hist, steps, replay_rerun=None):
+    """Sessions long enough for the registry to grow past the slab's initial capacity (1024 entries; notifications keep
+    their slot for ever): a few histories of `steps` calls in lockstep with the typed core, registry snapshots sent as
+    differences, judged by C09's verdict (Bridge/Release.v long_diags = Twin.diag on the rebuilt history)."""
+    rc, out = C.sh("%s %d %d %d %d" % (bins["bridge_twin"], seed + 77, hist, steps, steps - 50), timeout=1200)
+    cases = []
+    for l in out.splitlines():
+        if l.startswith("{"):
+            c = json.loads(l)
+            if c.get("harness_panic"): continue
+            cases.append(compress_reg_case(c))
+    run.oblige("long-session stage: harness produced %d long histories" % len(cases), rc == 0 and len(cases) >= 2, out[-300:] if rc else "")
+    if not cases: return
+    res = eval_release(run, prop, cases, long_reg_file, nsh_max=8)
+    peak = max((s["snap_len"] for c in cases for s in c["steps"]), default=0)
+    bad_ok = [(c, st, k) for c, v, st, k in res if v == 2]
+    bad_model = [(c, st, k) for c, v, st, k in res if v not in (0, 2)]
+    run.cov["traces_validated_against_impl"] += len(res)
+    run.extra["long_session_stage"] = {"histories": len(res), "calls_each": steps, "peak_registry_occupancy": peak}
+    run.oblige("long-session stage: registry occupancy went past the slab's initial capacity (peak %d > 1024)" % peak, peak > 1024, "")
+    run.oblige("long-session stage: model = bridges = typed core on %d histories of ~%d calls" % (len(res), steps), not bad_model and len(res) == len(cases),
+               json.dumps([{"app": c["app"], "codec": c["codec"], "step": s, "differs": DIFF_FIELD.get(k, k)} for c, s, k in bad_model[:4]]))
+    run.oblige("long-session stage: C09_ok holds on every long implementation trace", not bad_ok,
+               json.dumps([{"app": c["app"], "codec": c["codec"], "step": s, "fails": OK_FIELD.get(k, k)} for c, s, k in bad_ok[:4]]))
+    def window(c, s):
+        lo = max(0, int(s) - 3)
+        return {"app": c["app"], "codec": c["codec"], "case": c.get("case"), "calls_before": lo, "steps": c["steps"][lo:int(s) + 1]}
+    rerun = {"long_session": {"seed": seed, "hist": hist, "steps": steps}}
+    if bad_ok:
+        bad_ok.sort(key=lambda x: x[1]); c, s, k = bad_ok[0]
+        run.violation("C09_ok_long_session", {"property": prop, "what": OK_FIELD.get(k, str(k)), "first_offending_call": s, "rerun": rerun,
+                      "how_to_replay": "harness/bridge_twin %d %d %d %d regenerates the histories (bincode + json bridge in lockstep with a typed core); the window below shows the calls around the first offending one (registry snapshots as differences)" % (seed + 77, hist, steps, steps - 50),
+                      "cases": [window(c, s)]})
+    elif bad_model:
+        bad_model.sort(key=lambda x: x[1]); c, s, k = bad_model[0]
+        run.violation("correspondence_long_session", {"property": prop, "what": "bridge model and implementation differ on a long session; C09_ok still holds", "rerun": rerun,
+                      "broken": "correspondence coq/Bridge/Bridge.v vs crux_core::bridge (long session)", "cases": [dict(window(c, s), differs=DIFF_FIELD.get(k, k), at_call=s)]}, no_input=True)
 
 def eval_release(run, prop_dir, cases, filefn, nsh_max=16):
     nsh = nsh_max if len(cases) >= nsh_max else max(1, len(cases))
